@@ -66,8 +66,16 @@ Stages ==
 
 FailsAt(k, stage) == ~fired /\ fail = <<k, stage>>
 
+RecCanon(r) ==
+    \A i \in 1..Len(r) :
+        /\ r[i].content = Canon(r[i].label)
+        /\ (i > 1 => r[i].label = r[i - 1].label + 1)
+
+\* outcome of an API call as the caller can observe it; `canon`: the object is in the canonical state
+\* after the call (used to tell on which histories a deviation shows)
 Outcome(op, tgt, raised) ==
-    [ op |-> op, target |-> tgt, raised |-> raised, step |-> step', nrec |-> Len(rec') ]
+    [ op |-> op, target |-> tgt, raised |-> raised, step |-> step', nrec |-> Len(rec'),
+      canon |-> (step' < 0 \/ (net' = Canon(step') /\ RecCanon(rec'))) ]
 
 (***************************************************************************)
 (* Calls                                                                    *)
